@@ -89,7 +89,7 @@ func (obj DenseGradient) ConstAt(i int) ConstScalar {
 func (obj DenseGradient) ConstSlice(i, j int) ConstVector {
   x := make([]float64, j-i)
   for k := i; k < j; k++ {
-    x[k] = obj.S.GetDerivative(k)
+    x[k-i] = obj.S.GetDerivative(k)
   }
   return NewDenseFloat64Vector(x)
 }
